@@ -280,6 +280,10 @@ KX_CMDS = [
     ["ZMPOP", "W", "MAX", "COUNT", "1"], ["ZUNIONSTORE", "W", "R", "R"], ["ZUNIONSTORE", "W", "R", "R", "WEIGHTS", "1", "2"],
     ["ZINTERSTORE", "W", "R", "R", "AGGREGATE", "MAX"], ["ZINTERSTORE", "W", "R"], ["ZDIFFSTORE", "W", "R", "R"], ["ZDIFF", "R", "R", "WITHSCORES"],
     ["ZUNION", "R", "R", "WITHSCORES"], ["ZINTER", "R", "R"], ["ZRANGE", "R", "0", "-1"], ["ZCARD", "R"], ["ZSCORE", "R", "m1"], ["ZRANK", "R", "m1"],
+    # whole-set forms of ZRANDMEMBER (|count| >= cardinality: the reply is determined up to order), and the commands that
+    # go through the keyspace functions (no memory limit here: TOUCH replies 0, OBJECTFREQ / OBJECTIDLETIME an error)
+    ["ZRANDMEMBER", "R", "99", "WITHSCORES"], ["ZRANDMEMBER", "R", "-99"], ["TOUCH", "R", "R"], ["TOUCH", "R"],
+    ["OBJECTFREQ", "R"], ["OBJECTIDLETIME", "R"],
 ]
 
 def kx_match(rules, prefixes, key):
@@ -345,4 +349,18 @@ def kx_flush_witness(word="FLUSHDB"):
     s.cmd(1, "ACL", "SETUSER", "u1", "on", ">pw1", "+@all", "%R~a*", "%W~b*")
     s.cmd(2, "AUTH", "u1", "pw1")
     s.digest(); s.cmd(2, word); s.digest()
+    return s
+
+def kx_randomkey_witness(n=40):
+    """KF-C06-randomkey-keyless: u1 may read a* only; RANDOMKEY reports no key and names keys of the whole database"""
+    s = Script("kxrandomkey", base_cfg())
+    kx_preset(s)
+    N(s, 1); N(s, 2)
+    s.cmd(1, "AUTH", ROOT_PW)
+    s.cmd(1, "ACL", "SETUSER", "u1", "on", ">pw1", "+@all", "%R~a*", "%W~b*")
+    s.cmd(2, "AUTH", "u1", "pw1")
+    s.digest()
+    for _ in range(n):
+        s.cmd(2, "RANDOMKEY")
+    s.digest()
     return s
